@@ -634,9 +634,9 @@ def nt_c12(lhs, impl):
 PROPS["C12"] = {
     "modules": ["WhatIs.Props.C12"],
     "theorems": ["WhatIs.C12.reserialize_exact", "WhatIs.C12.parsed_length", "WhatIs.C12.fingerprint_rfc4880", "WhatIs.C12.kdf_witness", "WhatIs.C12.kdf_keeps_extra", "WhatIs.C12.reserialize_exact_full", "WhatIs.C12.fingerprint_rfc4880_full",
-                 "WhatIs.C12.mpi_bits_declared", "WhatIs.C12.lifetime_zero_is_never", "WhatIs.C12.expiry_spec", "WhatIs.C12.expiry_zero_witness", "WhatIs.C12.frame_new", "WhatIs.C12.frame_old", "WhatIs.C12.frame_partial",
+                 "WhatIs.C12.mpi_bits_declared", "WhatIs.C12.lifetime_zero_is_never", "WhatIs.C12.key_created_from_packet", "WhatIs.C12.expiry_spec", "WhatIs.C12.expiry_zero_witness", "WhatIs.C12.frame_new", "WhatIs.C12.frame_old", "WhatIs.C12.frame_partial",
                  "WhatIs.C12.sig_selfsig_readback", "WhatIs.C12.sig_area_in_order", "WhatIs.C12.sig_hash_suffix", "WhatIs.C12.sig_created_required", "WhatIs.C12.sig_nesting_fuel", "WhatIs.C12.sig_unknown_subpacket"],
-    "facts": {"pgp.lifetimeZeroIsNever": True, "pgp.kdfKeepsExtra": True},
+    "facts": {"pgp.lifetimeZeroIsNever": True, "pgp.keyCreatedFromPacket": True, "pgp.kdfKeepsExtra": True},
     "nontrivial": nt_c12,
     "rule": "v4 keys written by the harness's OWN OpenPGP writer (own packet framing, own framing of signed data, signatures made with the "
             "Go standard library): primaries RSA-1024/2047, DSA, ECDSA P-256/384/521, EdDSA; subkeys RSA, ECDH P-256 and cv25519, ECDSA "
